@@ -93,8 +93,12 @@ def run_cli(argv, key):
     try:
         with ET.ScandirOrder(key):
             try:
-                rc = gemato.cli.main(['gemato'] + argv)
+                import common
+                with common.watchdog(40):
+                    rc = gemato.cli.main(['gemato'] + argv)
                 return ['exit', rc]
+            except common.CaseTimeout:
+                return ['exc', 'Internal', 'DidNotTerminate']
             except SystemExit as e:
                 return ['exit', e.code if isinstance(e.code, int) else 2]
             except UnicodeDecodeError:
